@@ -11,3 +11,4 @@ import ScyllaVerif.Props.C13
 import ScyllaVerif.Props.C08
 import ScyllaVerif.Props.C01
 import ScyllaVerif.Props.C19
+import ScyllaVerif.Props.C04
